@@ -30,16 +30,60 @@ theorem countPadding_bounds (l : Nat) (r : UInt8) :
   unfold countPadding
   omega
 
+/-- The interpreted `Encode` is the familiar layout: three longs, two ints, the body. -/
+theorem encodeData_def (salt sid mid seq len : Nat) (body : Bytes) :
+    encodeData salt sid mid seq len body =
+      putU64 salt ++ putU64 sid ++ putU64 mid ++ putU32 seq ++ putU32 len ++ body := by
+  simp [encodeData, encodeWith, Facts.C04.dataEncode, fldVal]
+
+/-- Both encoder paths write the same bytes: `EncodeWithoutCopy` (with `Message`) = `Encode` with
+`MessageDataLen = len(encoded Message)`. -/
+theorem encodeDataNoCopy_def (salt sid mid seq : Nat) (payload : Bytes) :
+    encodeDataNoCopy salt sid mid seq payload = encodeData salt sid mid seq payload.length payload := by
+  simp [encodeDataNoCopy, encodeData, encodeWith, Facts.C04.dataEncodeNoCopy, Facts.C04.dataEncode, fldVal]
+
+/-- The interpreted decoder coincides with the written-out one. -/
+theorem decodeData_def (pt : Bytes) : decodeData pt = decodeDataLit pt := by
+  unfold decodeData decodeDataLit
+  rw [show Facts.C04.dataLenChecked = true from rfl]
+  simp only [Facts.C04.dataDecode, decodeFields, setFld, Bool.true_and, decide_eq_true_eq]
+  cases getU64 pt with
+  | error e => rfl
+  | ok v1 =>
+    obtain ⟨salt, r1⟩ := v1
+    simp only
+    cases getU64 r1 with
+    | error e => rfl
+    | ok v2 =>
+      obtain ⟨sid, r2⟩ := v2
+      simp only
+      cases getU64 r2 with
+      | error e => rfl
+      | ok v3 =>
+        obtain ⟨mid, r3⟩ := v3
+        simp only
+        cases getU32 r3 with
+        | error e => rfl
+        | ok v4 =>
+          obtain ⟨seq, r4⟩ := v4
+          simp only
+          cases getU32 r4 with
+          | error e => rfl
+          | ok v5 =>
+            obtain ⟨len, r5⟩ := v5
+            simp only
+
 theorem encodeData_length (salt sid mid seq len : Nat) (body : Bytes) :
     (encodeData salt sid mid seq len body).length = 32 + body.length := by
-  simp [encodeData, putU32_length, putU64_length]; omega
+  simp [encodeData_def, putU32_length, putU64_length]; omega
 
 /-- `DecodeWithoutCopy` after `Encode`. -/
 theorem decodeData_encodeData (salt sid mid seq len : Nat) (body : Bytes)
     (h1 : salt < 2 ^ 64) (h2 : sid < 2 ^ 64) (h3 : mid < 2 ^ 64) (h4 : seq < 2 ^ 32) (h5 : len < 2 ^ 32) :
     decodeData (encodeData salt sid mid seq len body) =
       if toInt32 len > (body.length : Int) then .error .dataLen else .ok ⟨salt, sid, mid, seq, len, body⟩ := by
-  unfold decodeData encodeData
+  rw [decodeData_def, encodeData_def]
+  unfold decodeDataLit
   simp only [List.append_assoc]
   rw [getU64_putU64 _ _ h1]
   simp only
@@ -55,7 +99,8 @@ theorem decodeData_encodeData (salt sid mid seq len : Nat) (body : Bytes)
 theorem decodeData_ok (pt : Bytes) (d : Data) (h : decodeData pt = .ok d) :
     pt = encodeData d.salt d.sid d.mid d.seq d.len d.body ∧ toInt32 d.len ≤ (d.body.length : Int) ∧
       d.salt < 2 ^ 64 ∧ d.sid < 2 ^ 64 ∧ d.mid < 2 ^ 64 ∧ d.seq < 2 ^ 32 ∧ d.len < 2 ^ 32 := by
-  unfold decodeData at h
+  rw [decodeData_def] at h
+  unfold decodeDataLit at h
   have g64 : ∀ (b : Bytes) (v : Nat) (r : Bytes), getU64 b = .ok (v, r) → b = putU64 v ++ r ∧ v < 2 ^ 64 := by
     intro b v r hb
     unfold getU64 at hb
@@ -102,7 +147,8 @@ theorem decodeData_ok (pt : Bytes) (d : Data) (h : decodeData pt = .ok d) :
               obtain ⟨a4, b4⟩ := g32 _ _ _ e4
               obtain ⟨a5, b5⟩ := g32 _ _ _ e5
               refine ⟨?_, by simpa using hle, b1, b2, b3, b4, b5⟩
-              simp only [encodeData, List.append_assoc]
+              rw [encodeData_def]
+              simp only [List.append_assoc]
               rw [a1, a2, a3, a4, a5]
           · cases h
         · cases h
@@ -140,7 +186,8 @@ theorem decrypt_ok_iff' (P : Prims) (side : Side) (ak keyId c : Bytes) (d : Data
       12 ≤ (d.body.length : Int) - toInt32 d.len ∧ (d.body.length : Int) - toInt32 d.len ≤ 1024 := by
   unfold decrypt decryptMessage plaintextOf
   rw [show Facts.C04.checksKeyID = true from rfl, show Facts.C04.checksMsgKey = true from rfl,
-    show Facts.C04.alignment = 16 from rfl]
+    show Facts.C04.alignment = 16 from rfl, show Facts.C04.frameKeyIdLen = 8 from rfl,
+    show Facts.C04.frameMsgKeyLen = 16 from rfl]
   simp only [Bool.true_and]
   by_cases hlen : c.length < 24
   · simp only [hlen, if_true]
@@ -274,7 +321,7 @@ theorem decrypt_encrypt' (P : Prims) (hP : LawfulPrims P) (side : Side) (ak keyI
           rw [List.append_assoc, drop_append_len _ _ 8 hk]
         rw [d8, take_append_len _ _ 16 hmk]; exact hmkv
       · have : padded = encodeData salt sid mid seq payload.length (payload ++ pad) := by
-          rw [← hptv]; simp [encodeData]
+          rw [← hptv]; simp [encodeData_def]
         rw [this, decodeData_encodeData _ _ _ _ _ _ h1 h2 h3 h4 (by omega), hti]
         have : ¬ ((payload.length : Int) > ((payload ++ pad).length : Int)) := by
           simp only [List.length_append]; omega
